@@ -243,8 +243,11 @@ def step (d : DState) (l : Line) : DState × List Verdict :=
       let fields := ["utxo", "ev", "bal", "imm", "mbal", "mimm"]
       let diffs := fields.filter fun f => lookup l.obs f != lookup l.obs ("f_" ++ f)
       let livingA := lookup l.obs "aidx"
+      -- the v1 address and the v2 hash share one index column: disconnecting the block of the later record
+      -- also wipes the other one's payload (hardfork window only); a wiped payload is tolerated, a different one is not
+      let differs (a b : Option String) : Bool := a != b && a != some "0" && b != some "0"
       let annBad := livingA != some "none" &&
-        (livingA != lookup l.obs "f_aidx" || lookup l.obs "aaddr" != lookup l.obs "f_aaddr" || lookup l.obs "ahash" != lookup l.obs "f_ahash")
+        (livingA != lookup l.obs "f_aidx" || differs (lookup l.obs "aaddr") (lookup l.obs "f_aaddr") || differs (lookup l.obs "ahash") (lookup l.obs "f_ahash"))
       let annBad2 := livingA == some "none" && lookup l.obs "f_aidx" != some "none" &&
         !(d.stack.any fun b => b.u.a1.isSome || b.u.a2.isSome)
       let tipH := match d.stack with | b :: _ => b.u.d.h | [] => 0
